@@ -69,6 +69,11 @@ impl<'a> DeclVisitor for Vis<'a> {
                     );
                 }
             }
+            if let Out::Ok(b) = &enc {
+                if i < 6 {
+                    crate::cases::future_version_case::<T>(&v, b, self.c, &mut self.q);
+                }
+            }
             // tampered encodings of derived types (C05/C06): systematic edits of a few values, random ones of the rest
             if let Out::Ok(b) = &enc {
                 if T::raw_ok() && i < self.tamper_values {
